@@ -2,7 +2,7 @@
    respect the reported output size.  Only final statements; every proof is one [exact].
    (GF128/GHASH/GCM/CCM/AES/ZUC/ChaCha20 statements are in Properties_C04b.v.) *)
 From GmVerif Require Import Base.ListX Base.Bytes Cipher.BitsX Cipher.SM4 Gen.Sm4Tables Cipher.SM4Tab
-  Cipher.SM4Proofs Cipher.Modes Cipher.SM4Modes Cipher.ModesProofs Cipher.SM4ModesProofs.
+  Cipher.SM4Proofs Cipher.Modes Cipher.SM4Modes Cipher.ModesProofs Cipher.XtsProofs Cipher.SM4ModesProofs Cipher.AesModesProofs Cipher.SM4Unrolled Cipher.SM4UnrolledProofs.
 
 Theorem C04_sm4_dec_enc : forall key blk, length key = 16%nat -> length blk = 16%nat ->
   bytes_ok blk = true -> sm4_decrypt_block key (sm4_encrypt_block key blk) = blk.
@@ -264,3 +264,89 @@ Theorem C04_inplace_eq : forall key n iv buf, n * 16 <= length buf ->
     (fst (ctr_blocks_sf (implE key) ctr_incr n iv buf), snd (ctr_blocks_sf (implE key) ctr_incr n iv buf) ++ skipn (n * 16) buf).
 Proof. exact sm4_inplace_eq. Qed.
 Print Assumptions C04_inplace_eq.
+
+(* the transcribed one-shot XTS functions (tweak update through gf128.c's bit-reversed words) =
+   the index-form Spec: T_j = x^j * E_K2(tweak), stealing by block indices *)
+Theorem C04_xts_eq_spec : forall key1 key2 tweak m, 16 <= length m ->
+  xts_encrypt_raw (implE key1) (implE key2) xts_mul2 tweak m =
+    xts_enc_spec (implE key1) (implE key2) xts_mul2_spec tweak m /\
+  xts_decrypt_raw (implD key1) (implE key2) xts_mul2 tweak m =
+    xts_dec_spec (implD key1) (implE key2) xts_mul2_spec tweak m.
+Proof. exact sm4_xts_eq_spec. Qed.
+Print Assumptions C04_xts_eq_spec.
+
+Theorem C04_xts_mul2_eq_spec : forall T, length T = 16 -> bytes_ok T = true -> xts_mul2 T = xts_mul2_spec T.
+Proof. exact xts_mul2_eq_spec. Qed.
+Print Assumptions C04_xts_mul2_eq_spec.
+
+(* ===================================================================== src/aes_modes.c ==
+   aes_cbc_encrypt/decrypt, aes_cbc_padding_*, aes_ctr_encrypt (chaining value kept as a pointer
+   into out/in, byte-count CTR loop) for ANY pair of 16-byte block functions E, D that satisfy the
+   four laws below; for AES the inversion law is aes_dec_enc (Cipher/AESProofs.v, other half of
+   C04), for SM4 all four are theorems above -- so the premises are satisfiable. *)
+Theorem C04_mode_premises_satisfiable : exists E D : list N -> list N,
+  (forall b, length (E b) = 16) /\ (forall b, length (D b) = 16) /\ (forall b, bytes_ok (E b) = true) /\
+  (forall b, length b = 16 -> bytes_ok b = true -> D (E b) = b).
+Proof. exact (ex_intro _ (implE []) (ex_intro _ (implD []) (conj (implE_len []) (conj (implD_len []) (conj (implE_ok []) (implDE [])))))). Qed.
+Print Assumptions C04_mode_premises_satisfiable.
+
+Theorem C04_aes_cbc_eq_spec : forall E D : list N -> list N,
+  (forall b, length (E b) = 16) -> (forall b, length (D b) = 16) -> (forall b, bytes_ok (E b) = true) ->
+  (forall b, length b = 16 -> bytes_ok b = true -> D (E b) = b) ->
+  forall iv m, length iv = 16 ->
+  aes_cbc_padding_encrypt E iv m = cbc_pad_enc_spec E iv m /\
+  aes_cbc_padding_decrypt D iv m = cbc_pad_dec_spec D iv m.
+Proof. exact aes_cbc_eq_spec. Qed.
+Print Assumptions C04_aes_cbc_eq_spec.
+
+Theorem C04_aes_cbc_blocks_eq_spec : forall (E D : list N -> list N) k iv m, length m = k * 16 ->
+  aes_cbc_encrypt E k iv m = cbc_enc_spec E iv m /\ aes_cbc_decrypt D k iv m = cbc_dec_spec D iv m.
+Proof. exact aes_cbc_blocks_eq_spec. Qed.
+Print Assumptions C04_aes_cbc_blocks_eq_spec.
+
+Theorem C04_aes_cbc_dec_enc : forall E D : list N -> list N,
+  (forall b, length (E b) = 16) -> (forall b, length (D b) = 16) -> (forall b, bytes_ok (E b) = true) ->
+  (forall b, length b = 16 -> bytes_ok b = true -> D (E b) = b) ->
+  forall iv m, length iv = 16 -> bytes_ok iv = true -> bytes_ok m = true ->
+  aes_cbc_padding_decrypt D iv (aes_cbc_padding_encrypt E iv m) = Some m.
+Proof. exact aes_cbc_dec_enc. Qed.
+Print Assumptions C04_aes_cbc_dec_enc.
+
+Theorem C04_aes_cbc_encrypt_inplace : forall E : list N -> list N,
+  (forall b, length (E b) = 16) ->
+  forall n iv buf, n * 16 <= length buf ->
+  snd (inplace_loop _ (cbc_enc_step E) n 0 iv buf) = aes_cbc_encrypt E n iv buf ++ skipn (n * 16) buf.
+Proof. exact aes_cbc_encrypt_inplace. Qed.
+Print Assumptions C04_aes_cbc_encrypt_inplace.
+
+Theorem C04_aes_ctr_eq_spec : forall E D : list N -> list N,
+  (forall b, length (E b) = 16) -> (forall b, length (D b) = 16) -> (forall b, bytes_ok (E b) = true) ->
+  (forall b, length b = 16 -> bytes_ok b = true -> D (E b) = b) ->
+  forall ctr m, ok16 ctr ->
+  aes_ctr_encrypt E ctr m = ctr_spec E ctr m /\
+  snd (aes_ctr_encrypt E ctr (snd (aes_ctr_encrypt E ctr m))) = m.
+Proof. exact (fun E D h1 h2 h3 h4 ctr m H => conj (aes_ctr_eq_spec E D h1 h2 h3 h4 ctr m H) (aes_ctr_dec_enc E D h1 h2 h3 h4 ctr m H)). Qed.
+Print Assumptions C04_aes_ctr_eq_spec.
+
+(* ===================================================================== one level below ==
+   sm4_encrypt as written: 32 unrolled ROUND lines over the named registers X0..X4 whose roles
+   rotate by one per line, stores from X0, X4, X3, X2 -- equal to the shifting-state loop, hence
+   (with the source tables) to the standard; and one iteration of the table-driven
+   sm4_cbc_encrypt_blocks on 32-bit words equals the block-level step c = E(blk xor iv). *)
+Theorem C04_sm4_unrolled_eq_loop : forall rks blk, length rks = 32 ->
+  sm4_encrypt_unrolled rks blk = sm4_encrypt_tab rks blk.
+Proof. exact sm4_encrypt_unrolled_eq. Qed.
+Print Assumptions C04_sm4_unrolled_eq_loop.
+
+Theorem C04_sm4_unrolled_eq_spec : forall key blk,
+  sm4_encrypt_unrolled (sm4_set_encrypt_key key) blk = sm4_encrypt_block key blk /\
+  sm4_encrypt_unrolled (sm4_set_decrypt_key key) blk = sm4_decrypt_block key blk.
+Proof. exact sm4_unrolled_eq_spec. Qed.
+Print Assumptions C04_sm4_unrolled_eq_spec.
+
+Theorem C04_cbc_enc_words_eq_block : forall rks iv blk, length iv = 16 -> bytes_ok iv = true ->
+  length blk = 16 -> bytes_ok blk = true ->
+  let c := sm4_encrypt_tab rks (xor_bytes blk iv) in
+  cbc_enc_words rks (words4 iv) blk = (words4 c, c).
+Proof. exact cbc_enc_words_eq. Qed.
+Print Assumptions C04_cbc_enc_words_eq_block.
